@@ -1,6 +1,7 @@
 From Coq Require Import List NArith ZArith Permutation Relations.
 From SK Require Import lib.LGraph lib.StrJoin model.C08_Model proof.C08_Spec proof.C08_Faithful proof.C08_Nauty proof.C08_SigFun proof.C08_Sound proof.C08_Invariant proof.C08_Value proof.C08_GraphSig proof.C08_Auts proof.C08_GenIdem proof.C08_Select proof.C08_Orbits.
 From SK Require Import model.C08_Digraph proof.C08_DSpec proof.C08_DSer proof.C08_DNauty proof.C08_DInvariant proof.C08_MaxDepth proof.C08_DValue proof.C08_DGraphSig proof.C08_OrbitsAut proof.C08_DAuts proof.C08_DOrbitsAut.
+From SK Require Import model.C08_Obs proof.C08_Order model.C08_Sel proof.C08_SelNauty.
 Import ListNotations.
 
 (** 1. Faithfulness: the canonical graph is the input relabelled by a map that is injective on its nodes;
@@ -420,3 +421,37 @@ Theorem C08_digraph_nauty_orbits_are_automorphism_orbits : forall g : graph, dwf
    (exists s, (inj_on s (node_ids g) /\ dgeq_cov (relabel s g) g) /\ s x = y)).
 Proof. exact dnauty_orbits_aut. Qed.
 Print Assumptions C08_digraph_nauty_orbits_are_automorphism_orbits.
+
+(** 19. The canonical node order compared with the implementation on every run ([generic_order], [rank_order]: old ids in the
+        order of their new ids) is the order the canonical graphs of the attribute-sort / wl / morgan back-ends are built from, it
+        enumerates the nodes, and the new id of a node is its position in it. *)
+Theorem C08_canonical_node_order : forall (ranks : list (N * Z)) (g : graph),
+  canon_generic g = rebuild g (generic_order g) /\ Permutation (generic_order g) (node_ids g) /\
+  canon_rank ranks g = rebuild g (rank_order ranks g) /\ Permutation (rank_order ranks g) (node_ids g) /\
+  (NoDup (node_ids g) -> forall v, In v (node_ids g) ->
+     nth_error (generic_order g) (N.to_nat (apply_map (mapping_of (generic_order g)) v) - 1) = Some v).
+Proof. exact canonical_orders. Qed.
+Print Assumptions C08_canonical_node_order.
+
+(** 20. NautyCanonicalizer(node_attrs, edge_attrs) used directly with ANY attribute selection, in any order, also empty (model
+        model/C08_Sel.v: the selected attributes form the cell key, the signature, the label fields and the partial label; four
+        selections are compared with the implementation - permutation, best label, reported permutations, graph_signature
+        pattern - on a quarter of the cases): canonical_form returns the input relabelled by a map injective on its nodes onto
+        1..N (the search terminates, the partial label stays a lower bound whatever is printed).  The selection
+        GraphCanonicaliser passes gives the label of 8.  (Exactness on the selected attributes: proved for the default selection
+        (5, 8) and for edge_attrs = [order] (11); other selections: oracle.) *)
+Theorem C08_nauty_selection_faithful : forall (na : list nsel) (ea : list esel) (g : graph), NoDup (node_ids g) ->
+  exists f, inj_on f (node_ids g) /\ Permutation (gnodes (canon_nauty_sel na ea g)) (gnodes (relabel f g))
+            /\ gedges (canon_nauty_sel na ea g) = gedges (relabel f g).
+Proof. exact faithful_nauty_sel. Qed.
+Print Assumptions C08_nauty_selection_faithful.
+
+Theorem C08_nauty_selection_onto_1N : forall (na : list nsel) (ea : list esel) (g : graph), NoDup (node_ids g) ->
+  Permutation (node_ids (canon_nauty_sel na ea g)) (map N.of_nat (seq 1 (length (gnodes g)))).
+Proof. exact onto_nauty_sel. Qed.
+Print Assumptions C08_nauty_selection_onto_1N.
+
+Theorem C08_nauty_selection_default_label : forall (g : graph) (p : list N),
+  nlabel_sel [SEl; SAr; SCh; SHc] [SOrd; SStd] g p = nlabel g p.
+Proof. exact nlabel_sel_default. Qed.
+Print Assumptions C08_nauty_selection_default_label.
